@@ -18,16 +18,7 @@ Proof.
     destruct (n <=? 2 ^ 32 - 1) eqn:E; [eauto|]. apply Z.leb_gt in E. unfold int_type_ok in H. lia.
 Qed.
 
-Section AuxRoundtrip.
-  Variable fmt_f32 : Z -> list Z.
-  Variable parse_f32 : list Z -> option Z.
-  (** the law of strconv on the float32 values that occur (NaN excluded) *)
-  Variable f32_ok : Z -> Prop.
-  Hypothesis f32_law : forall x, f32_ok x -> parse_f32 (fmt_f32 x) = Some x.
-
-  Definition floats_ok (v : auxv) : Prop := match v with AvF b => f32_ok b | _ => True end.
-
-  Lemma parse_aux_text : forall t0 t1 ty txt,
+Lemma parse_aux_text : forall parse_f32 t0 t1 ty txt,
     parse_aux parse_f32 (t0 :: t1 :: 58 :: ty :: 58 :: txt) =
       let mk v := Ok (mk_aux t0 t1 v) in
       let opt (o : option auxv) := match o with Some v => mk v | None => Err 0 end in
@@ -48,6 +39,16 @@ Section AuxRoundtrip.
     { apply Z.ltb_ge. unfold zlen. cbn [length]. lia. }
     rewrite L. reflexivity.
   Qed.
+
+Section AuxRoundtrip.
+  Variable fmt_f32 : Z -> list Z.
+  Variable parse_f32 : list Z -> option Z.
+  (** the law of strconv on the float32 values that occur (NaN excluded) *)
+  Variable f32_ok : Z -> Prop.
+  Hypothesis f32_law : forall x, f32_ok x -> parse_f32 (fmt_f32 x) = Some x.
+
+  Definition floats_ok (v : auxv) : Prop := match v with AvF b => f32_ok b | _ => True end.
+
 
   (** For every scalar aux field expressible in SAM text: ParseAux of the text
       samAux.String writes succeeds, keeps the tag, and yields the same value
@@ -78,3 +79,245 @@ Section AuxRoundtrip.
       rewrite parse_aux_text. repeat split; reflexivity.
   Qed.
 End AuxRoundtrip.
+
+(* =================================================== all aux types, exactly *)
+
+Ltac Zify.zify_post_hook ::= Z.div_mod_to_equations.
+
+Lemma zlen_cons : forall (x : Z) l, zlen (x :: l) = 1 + zlen l.
+Proof. intros. unfold zlen. cbn [length]. lia. Qed.
+Lemma zlen_nonneg : forall (l : list Z), 0 <= zlen l.
+Proof. intros. unfold zlen. lia. Qed.
+
+(** ParseInt(s, 0, bits) reads back %d *)
+Lemma parse_int0_print : forall bits half z,
+  half * 2 = 2 ^ bits -> 2 ^ (bits - 1) = half -> - half <= z < half ->
+  go_parse_int (print_Z z) 0 bits = Some z.
+Proof.
+  intros bits half z Hh Hc H. unfold go_parse_int. rewrite Hc.
+  destruct (z <? 0) eqn:E.
+  - apply Z.ltb_lt in E. unfold print_Z. rewrite (proj2 (Z.ltb_lt z 0) E).
+    cbn [Z.eqb Pos.eqb].
+    pose proof (parse_uint0_print (- z) bits ltac:(lia)) as P.
+    unfold print_Z in P. destruct (- z <? 0) eqn:E2; [apply Z.ltb_lt in E2; lia|].
+    rewrite P. cbn [negb andb].
+    destruct (half <? - z) eqn:E3; [apply Z.ltb_lt in E3; lia|]. f_equal. lia.
+  - apply Z.ltb_ge in E.
+    pose proof (parse_uint0_print z bits ltac:(lia)) as P.
+    assert (NE : print_Z z <> []).
+    { unfold print_Z. destruct (z <? 0); [congruence|apply pdigits_nonempty]. }
+    destruct (print_Z z) as [|c0 t] eqn:Ep; [congruence|].
+    assert (Hc2 : (c0 =? 43) = false /\ (c0 =? 45) = false).
+    { assert (F1 := print_Z_free z 43 ltac:(lia)).
+      rewrite Ep in F1. apply free_cons in F1.
+      unfold print_Z in Ep. destruct (z <? 0) eqn:E4; [apply Z.ltb_lt in E4; lia|].
+      assert (F3 := print_nat_base_free 10 z 45 ltac:(lia) ltac:(lia) ltac:(lia)).
+      rewrite Ep in F3. apply free_cons in F3.
+      split; apply Z.eqb_neq; tauto. }
+    destruct Hc2 as [H43 H45]. rewrite H43, H45. rewrite P. cbn [negb andb].
+    destruct (half <=? z) eqn:E3; [apply Z.leb_le in E3; lia|]. reflexivity.
+Qed.
+
+Lemma hex_nibble_upper : forall d, 0 <= d < 16 -> hex_nibble (hex_upper d) = Some d.
+Proof.
+  intros d H.
+  assert (C : d = 0 \/ d = 1 \/ d = 2 \/ d = 3 \/ d = 4 \/ d = 5 \/ d = 6 \/ d = 7 \/ d = 8 \/ d = 9
+            \/ d = 10 \/ d = 11 \/ d = 12 \/ d = 13 \/ d = 14 \/ d = 15) by lia.
+  repeat (destruct C as [C|C]; [subst; reflexivity|]). subst; reflexivity.
+Qed.
+
+Lemma hex_upper_not9 : forall d, 0 <= d < 16 -> hex_upper d <> 9.
+Proof. intros d H. unfold hex_upper. destruct (d <? 10); lia. Qed.
+
+Definition hex_text (b : list Z) : list Z :=
+  flat_map (fun c => [hex_upper (c / 16); hex_upper (c mod 16)]) b.
+
+Lemma hex_decode_text : forall b, Forall (fun c => 0 <= c < 256) b -> hex_decode (hex_text b) = Some b.
+Proof.
+  induction 1 as [|c b Hc Hb IH]; [reflexivity|].
+  unfold hex_text in *. cbn [flat_map app hex_decode].
+  rewrite !hex_nibble_upper by lia. rewrite IH. f_equal. f_equal. lia.
+Qed.
+
+Lemma hex_text_free : forall b, Forall (fun c => 0 <= c < 256) b -> free 9 (hex_text b).
+Proof.
+  induction 1 as [|c b Hc Hb IH]; [apply free_nil|].
+  unfold hex_text in *. cbn [flat_map app].
+  apply free_cons. split; [apply hex_upper_not9; lia|].
+  apply free_cons. split; [apply hex_upper_not9; lia|exact IH].
+Qed.
+
+Lemma flat_map_sep : forall (fs : list (list Z)),
+  flat_map (fun g => 44 :: g) fs = match fs with [] => [] | _ => 44 :: join 44 fs end.
+Proof.
+  induction fs as [|f fs IH]; [reflexivity|].
+  cbn [flat_map]. rewrite IH. destruct fs; [cbn; rewrite app_nil_r; reflexivity|reflexivity].
+Qed.
+
+Lemma flat_map_map_sep : forall {A} (g : A -> list Z) l,
+  flat_map (fun n => 44 :: g n) l = flat_map (fun s => 44 :: s) (map g l).
+Proof. intros A g l. induction l as [|x l IH]; [reflexivity|]. cbn. rewrite IH. reflexivity. Qed.
+
+Lemma map_opt_back : forall {A} (f : list Z -> option A) (g : A -> list Z) l,
+  Forall (fun x => f (g x) = Some x) l -> map_opt f (map g l) = Some l.
+Proof.
+  intros A f g l H. induction H as [|x l Hx Hl IH]; [reflexivity|].
+  cbn [map map_opt]. rewrite Hx, IH. reflexivity.
+Qed.
+
+Lemma free_flat_sep : forall sep (fs : list (list Z)), sep <> 44 -> Forall (free sep) fs ->
+  free sep (flat_map (fun g => 44 :: g) fs).
+Proof.
+  intros sep fs Hs H. induction H as [|f fs Hf Hfs IH]; [apply free_nil|].
+  cbn [flat_map]. apply free_cons. split; [lia|]. apply free_app. split; assumption.
+Qed.
+
+(** canonical form of an aux value after text: integers get the smallest type *)
+Definition canon_val (v : auxv) : auxv :=
+  match v with
+  | AvInt _ n => match new_aux_int n with Some w => w | None => v end
+  | _ => v
+  end.
+Definition aux_back (a : aux) : aux := mk_aux (a_t0 a) (a_t1 a) (canon_val (a_val a)).
+
+Lemma view_canon : forall v, view_val (canon_val v) = view_val v.
+Proof.
+  intros [c|ty n|b|s|b|ty vs|vs]; try reflexivity. cbn [canon_val].
+  unfold new_aux_int.
+  repeat match goal with |- context [if ?c then _ else _] => destruct c end; reflexivity.
+Qed.
+
+Lemma canon_ok : forall v, auxv_ok v -> auxv_ok (canon_val v).
+Proof.
+  intros [c|ty n|b|s|b|ty vs|vs] H; try exact H. cbn [canon_val auxv_ok] in *.
+  unfold new_aux_int.
+  destruct (n <? 0) eqn:E0.
+  - apply Z.ltb_lt in E0.
+    destruct (- 2 ^ 7 <=? n) eqn:E1; [apply Z.leb_le in E1; cbn; unfold int_type_ok; lia|apply Z.leb_gt in E1].
+    destruct (- 2 ^ 15 <=? n) eqn:E2; [apply Z.leb_le in E2; cbn; unfold int_type_ok; lia|apply Z.leb_gt in E2].
+    destruct (- 2 ^ 31 <=? n) eqn:E3; [apply Z.leb_le in E3; cbn; unfold int_type_ok; lia|exact H].
+  - apply Z.ltb_ge in E0.
+    destruct (n <=? 2 ^ 8 - 1) eqn:E1; [apply Z.leb_le in E1; cbn; unfold int_type_ok; lia|apply Z.leb_gt in E1].
+    destruct (n <=? 2 ^ 16 - 1) eqn:E2; [apply Z.leb_le in E2; cbn; unfold int_type_ok; lia|apply Z.leb_gt in E2].
+    destruct (n <=? 2 ^ 32 - 1) eqn:E3; [apply Z.leb_le in E3; cbn; unfold int_type_ok; lia|exact H].
+Qed.
+
+Section AuxAll.
+  Variable fmt_f32 : Z -> list Z.
+  Variable parse_f32 : list Z -> option Z.
+  Variable f32_ok : Z -> Prop.
+  Hypothesis f32_law : forall x, f32_ok x -> parse_f32 (fmt_f32 x) = Some x.
+  (** the text of a float has no TAB and no comma *)
+  Hypothesis f32_clean : forall x, f32_ok x -> free 9 (fmt_f32 x) /\ free 44 (fmt_f32 x).
+
+  Definition floats_ok_all (v : auxv) : Prop :=
+    match v with AvF b => f32_ok b | AvBF vs => Forall f32_ok vs | _ => True end.
+
+  Lemma parse_b_ints : forall ty vs, int_type ty -> Forall (int_type_ok ty) vs ->
+    parse_b_elems parse_f32 ty (map print_Z vs) = Some (AvBI ty vs).
+  Proof.
+    intros ty vs Ht Hv. unfold parse_b_elems.
+    destruct Ht as [-> | [-> | [-> | [-> | [-> | ->]]]]]; cbn [Z.eqb Pos.eqb];
+      rewrite map_opt_back; try reflexivity;
+      (eapply Forall_impl; [|exact Hv]); intros v Hi; unfold int_type_ok in Hi.
+    - apply (parse_int0_print 8 128); [reflexivity|reflexivity|lia].
+    - apply parse_uint0_print. change (2 ^ 8) with 256. lia.
+    - apply (parse_int0_print 16 32768); [reflexivity|reflexivity|lia].
+    - apply parse_uint0_print. change (2 ^ 16) with 65536. lia.
+    - apply (parse_int0_print 32 2147483648); [reflexivity|reflexivity|lia].
+    - apply parse_uint0_print. lia.
+  Qed.
+
+  Lemma parse_b_text : forall t0 t1 sub (fs : list (list Z)),
+    Forall (free 44) fs ->
+    parse_aux parse_f32 (t0 :: t1 :: 58 :: 66 :: 58 :: sub :: flat_map (fun g => 44 :: g) fs) =
+    match parse_b_elems parse_f32 sub fs with Some v => Ok (mk_aux t0 t1 v) | None => Err 0 end.
+  Proof.
+    intros t0 t1 sub fs Hf. rewrite parse_aux_text.
+    change (66 =? 65) with false. change (66 =? 105) with false. change (66 =? 102) with false.
+    change (66 =? 90) with false. change (66 =? 72) with false. change (66 =? 66) with true. cbn iota.
+    rewrite flat_map_sep. destruct fs as [|f fs].
+    - change (zlen [sub] =? 0) with false. change (zlen [sub] =? 1) with true. cbn iota.
+      change (getz [sub] 0) with sub. reflexivity.
+    - rewrite !zlen_cons.
+      assert (Z0 := zlen_nonneg (join 44 (f :: fs))).
+      destruct (1 + (1 + zlen (join 44 (f :: fs))) =? 0) eqn:E0; [apply Z.eqb_eq in E0; lia|].
+      destruct (1 + (1 + zlen (join 44 (f :: fs))) =? 1) eqn:E1; [apply Z.eqb_eq in E1; lia|].
+      change (getz (sub :: 44 :: join 44 (f :: fs)) 1) with 44. change (getz (sub :: 44 :: join 44 (f :: fs)) 0) with sub.
+      change (negb (44 =? 44)) with false. cbn iota.
+      change (skipn 2 (sub :: 44 :: join 44 (f :: fs))) with (join 44 (f :: fs)).
+      rewrite split_join by (auto; congruence). reflexivity.
+  Qed.
+
+  (** ParseAux reads back, for every aux type, the text samAux.String writes:
+      same tag, same value, integers in their smallest type. *)
+  Theorem aux_roundtrip_all : forall a,
+    auxv_ok (a_val a) -> floats_ok_all (a_val a) ->
+    parse_aux parse_f32 (spec_opt fmt_f32 ([a_t0 a; a_t1 a], view_val (a_val a))) = Ok (aux_back a).
+  Proof.
+    intros [t0 t1 v] Hok Hf. unfold spec_opt, aux_back. cbn [a_t0 a_t1 a_val fst snd] in *.
+    destruct v as [c|ty n|b|s|b|ty vs|vs];
+      cbn [view_val spec_value app auxv_ok floats_ok_all canon_val] in *.
+    - rewrite parse_aux_text. reflexivity.
+    - destruct (new_aux_int_value ty n Hok) as (ty' & Hn).
+      rewrite parse_aux_text.
+      change (105 =? 65) with false. change (105 =? 105) with true. cbn iota.
+      rewrite atoi_print by (unfold int_type_ok in Hok; lia). rewrite Hn. reflexivity.
+    - rewrite parse_aux_text.
+      change (102 =? 65) with false. change (102 =? 105) with false. change (102 =? 102) with true. cbn iota.
+      rewrite f32_law by assumption. reflexivity.
+    - rewrite parse_aux_text. reflexivity.
+    - rewrite parse_aux_text.
+      change (72 =? 65) with false. change (72 =? 105) with false. change (72 =? 102) with false.
+      change (72 =? 90) with false. change (72 =? 72) with true. cbn iota.
+      fold (hex_text b). rewrite hex_decode_text by assumption. reflexivity.
+    - destruct Hok as [Ht Hv].
+      rewrite (flat_map_map_sep print_Z vs). rewrite parse_b_text.
+      + rewrite parse_b_ints by assumption. reflexivity.
+      + apply Forall_forall. intros s Hin. apply in_map_iff in Hin. destruct Hin as (x & <- & _).
+        apply print_Z_free. lia.
+    - rewrite (flat_map_map_sep fmt_f32 vs). rewrite parse_b_text.
+      + unfold parse_b_elems. cbn [Z.eqb Pos.eqb]. rewrite map_opt_back; [reflexivity|].
+        eapply Forall_impl; [|exact Hf]. intros x Hx. apply f32_law. exact Hx.
+      + apply Forall_forall. intros s Hin. apply in_map_iff in Hin. destruct Hin as (x & <- & Hx).
+        rewrite Forall_forall in Hf. apply (f32_clean x (Hf x Hx)).
+  Qed.
+
+  (** the text of an aux field has no TAB *)
+  Lemma aux_text_free : forall a, aux_ok a -> floats_ok_all (a_val a) ->
+    free 9 (spec_opt fmt_f32 ([a_t0 a; a_t1 a], view_val (a_val a))).
+  Proof.
+    intros [t0 t1 v] (H0 & H1 & Hok) Hf. unfold spec_opt. cbn [a_t0 a_t1 a_val fst snd] in *.
+    assert (F1 : forall x, x <> 9 -> free 9 [x]) by (intros; apply free_cons; split; [assumption|apply free_nil]).
+    destruct v as [c|ty n|b|s|b|ty vs|vs];
+      cbn [view_val spec_value app auxv_ok floats_ok_all] in *;
+      repeat (apply free_cons; split; [lia|]).
+    - apply free_nil.
+    - apply print_Z_free. lia.
+    - apply (f32_clean b Hf).
+    - exact Hok.
+    - apply hex_text_free. exact Hok.
+    - destruct Hok as [Ht Hv]. apply free_cons. split.
+      + destruct Ht as [-> | [-> | [-> | [-> | [-> | ->]]]]]; lia.
+      + rewrite (flat_map_map_sep print_Z vs). apply free_flat_sep; [lia|].
+        apply Forall_forall. intros s Hin. apply in_map_iff in Hin. destruct Hin as (x & <- & _).
+        apply print_Z_free. lia.
+    - rewrite (flat_map_map_sep fmt_f32 vs). apply free_flat_sep; [lia|].
+      apply Forall_forall. intros s Hin. apply in_map_iff in Hin. destruct Hin as (x & <- & Hx).
+      rewrite Forall_forall in Hf. apply (f32_clean x (Hf x Hx)).
+  Qed.
+End AuxAll.
+
+Theorem aux_roundtrip_full :
+  forall (fmt_f32 : Z -> list Z) (parse_f32 : list Z -> option Z) (f32_ok : Z -> Prop),
+    (forall x, f32_ok x -> parse_f32 (fmt_f32 x) = Some x) ->
+    (forall x, f32_ok x -> free 9 (fmt_f32 x) /\ free 44 (fmt_f32 x)) ->
+    forall a,
+      auxv_ok (a_val a) -> floats_ok_all f32_ok (a_val a) ->
+      format_aux fmt_f32 a = Some (spec_opt fmt_f32 ([a_t0 a; a_t1 a], view_val (a_val a))) /\
+      parse_aux parse_f32 (spec_opt fmt_f32 ([a_t0 a; a_t1 a], view_val (a_val a))) = Ok (aux_back a) /\
+      view_val (a_val (aux_back a)) = view_val (a_val a).
+Proof.
+  intros fmt pf ok L C a Hok Hf. split; [apply format_aux_spec; assumption|].
+  split; [eapply aux_roundtrip_all; eassumption|]. unfold aux_back. cbn [a_val]. apply view_canon.
+Qed.
